@@ -43,18 +43,22 @@ func processReadBuf(rb []byte, searchDepth int) []byte {
 
 func (c *Channel) read() {
 	defer func() {
+		util.VerifYield("chan.read.exit")
 		c.readLoopExited.Store(true)
 		close(c.exited)
 	}()
 
 	for {
+		util.VerifYield("chan.read.top")
 		select {
 		case <-c.done:
 			return
 		default:
 		}
 
+		util.VerifYield("chan.read.before-transport-read")
 		b, err := c.t.Read()
+		util.VerifYield("chan.read.after-transport-read")
 		if err != nil {
 			select {
 			case <-c.done:
@@ -78,6 +82,7 @@ func (c *Channel) read() {
 				"encountered error reading from transport during channel read loop. error: %s", err,
 			)
 
+			util.VerifYield("chan.read.before-errs-send")
 			select {
 			case c.Errs <- err:
 			case <-c.done:
@@ -122,12 +127,14 @@ func (c *Channel) read() {
 // errors on the Errs channel (these would come from the underlying transport), the error is
 // returned with nil for the byte slice.
 func (c *Channel) Read() ([]byte, error) {
+	util.VerifYield("chan.op.read.enter")
 	select {
 	case err := <-c.Errs:
 		return nil, err
 	default:
 	}
 
+	util.VerifYield("chan.op.read.after-errs-poll")
 	if c.readLoopExited.Load() {
 		return nil, util.ErrConnectionError
 	}
